@@ -989,6 +989,15 @@ def run(repo: Repo, rep: Report, tier: str) -> None:
     from .c20 import rule_state_alias
 
     rule_state_alias(repo, rep, [repo.cls(SL, "SyndromeLookupDecoder"), repo.cls(ML, "BruteForceMLDecoder"), repo.cls(BM, "BerlekampMasseyDecoder"), repo.cls(RMD, "ReedMullerDecoder")])
+    # the Reed-Muller encoder's own inverse is a complete decoder: evaluated as a whole on RM(1,3) and RM(2,4) (shared with C04)
+    from .c04 import rm_inverse_cached
+
+    rm_ = repo.func(RME, "ReedMullerCodeEncoder.inverse_encode")
+    st_, d_ = rm_inverse_cached(repo)
+    if st_ is not None:
+        rep.add("ML", rm_, "Reed-Muller inverse_encode evaluated: every single error (t = 1) on RM(1,3); RM(2,4) words from both halves of the enumeration", st_, d_, node=rm_.node)
+    else:
+        rep.ok("ML", rm_, "Reed-Muller inverse_encode not evaluable as a whole", f"left to the lints and to C04's shape rules ({d_[:80]})", node=rm_.node, nontrivial=False)
     if tier == "thorough":
         ci_ = repo.cls(HAM, "HammingCodeEncoder")
         sp_ = repo.method(ci_, "_syndrome_to_error_position")
